@@ -54,18 +54,27 @@ Qed.
 Definition mkst (c : cst) (bar : nat) (depth : N) (subs : list sub) : pstate :=
   {| p_res := c_res c; p_save := c_save c; p_depth := depth; p_subs := subs; p_pos := 0; p_barrier := bar |}.
 (* the barrier index of the parser vs. the "just closed a group" flag of the compiler *)
+(* (since the F42 repair a '{' moves the barrier behind the jump it takes: the barrier may then equal the length while no
+   group has just been closed, but the last atom is a jump, not a skip) *)
 Definition bar_ok (c : cst) (bar : nat) : Prop :=
-  if c_closed c then bar = length (c_res c) else (bar < length (c_res c))%nat.
+  if c_closed c then bar = length (c_res c)
+  else (bar <= length (c_res c))%nat /\ (bar = length (c_res c) -> forall k, last_atom (c_res c) <> Some (Skip k)).
+Lemma bar_ok_lt c bar : c_closed c = false -> (bar < length (c_res c))%nat -> bar_ok c bar.
+Proof. intros Hc Hl. unfold bar_ok. rewrite Hc. split; [lia|intros E; lia]. Qed.
+(* the brace depth never goes below the depth at the '(' of the innermost open group (F43 repair: '}' tests it) *)
+Definition floor_ok (depth : N) (subs : list sub) : Prop := match subs with sb :: _ => sb_depth sb <= depth | [] => True end.
+Lemma floor_ok_succ depth subs : floor_ok depth subs -> floor_ok (depth + 1) subs.
+Proof. unfold floor_ok. destruct subs; [exact (fun H => H)|lia]. Qed.
 
 (* consuming [inp] turns the image of [c] into the image of [c'], whatever the nesting *)
 Definition reaches (c : cst) (inp : list N) (c' : cst) : Prop :=
-  forall depth subs bar, bar_ok c bar -> exists bar', bar_ok c' bar' /\ steps (mkst c bar depth subs) inp (mkst c' bar' depth subs).
+  forall depth subs bar, floor_ok depth subs -> bar_ok c bar -> exists bar', bar_ok c' bar' /\ steps (mkst c bar depth subs) inp (mkst c' bar' depth subs).
 
 Lemma reaches_nil c : reaches c [] c.
-Proof. intros d s b H. exists b. split; [exact H|apply steps_nil]. Qed.
+Proof. intros d s b _ H. exists b. split; [exact H|apply steps_nil]. Qed.
 Lemma reaches_app c1 c2 c3 a b : reaches c1 a c2 -> reaches c2 b c3 -> reaches c1 (a ++ b) c3.
 Proof.
-  intros H1 H2 d s b1 Hb1. destruct (H1 d s b1 Hb1) as [b2 [Hb2 S1]]. destruct (H2 d s b2 Hb2) as [b3 [Hb3 S2]].
+  intros H1 H2 d s b1 Hfl Hb1. destruct (H1 d s b1 Hfl Hb1) as [b2 [Hb2 S1]]. destruct (H2 d s b2 Hfl Hb2) as [b3 [Hb3 S2]].
   exists b3. split; [exact Hb3|eapply steps_app; eassumption].
 Qed.
 
@@ -73,7 +82,7 @@ Qed.
 Lemma steps_space st : steps st [32] st.
 Proof. apply (steps_one st 32 [] st true). intros rest pos. reflexivity. Qed.
 Lemma reaches_space c : reaches c [32] c.
-Proof. intros d s b H. exists b. split; [exact H|apply steps_space]. Qed.
+Proof. intros d s b _ H. exists b. split; [exact H|apply steps_space]. Qed.
 
 (* ---------------------------------------------------------------- list facts *)
 Lemma upd_length {A} (l : list A) : forall i x, length (upd l i x) = length l.
@@ -96,13 +105,13 @@ Qed.
 Lemma bar_ok_emit c bar l : bar_ok c bar -> bar_ok (emit c l) bar.
 Proof.
   unfold bar_ok, emit. cbn [c_closed c_res]. destruct l as [|a l]; [rewrite app_nil_r; exact (fun H => H)|].
-  rewrite app_length. cbn [length]. destruct (c_closed c); lia.
+  rewrite app_length. cbn [length]. destruct (c_closed c); intros H; (split; [lia|intros E; lia]).
 Qed.
 Lemma bar_ok_emit_slot c bar mk : bar_ok c bar -> bar_ok (emit_slot c mk) bar.
-Proof. unfold bar_ok, emit_slot. cbn [c_closed c_res]. rewrite app_length. cbn [length]. destruct (c_closed c); lia. Qed.
+Proof. unfold bar_ok, emit_slot. cbn [c_closed c_res]. rewrite app_length. cbn [length]. destruct (c_closed c); intros H; (split; [lia|intros E; lia]). Qed.
 
 (* ---------------------------------------------------------------- single characters *)
-Ltac one_step := intros dep sbs bar Hbar; exists bar; split; [first [apply bar_ok_emit|apply bar_ok_emit_slot]; exact Hbar|].
+Ltac one_step := intros dep sbs bar _ Hbar; exists bar; split; [first [apply bar_ok_emit|apply bar_ok_emit_slot]; exact Hbar|].
 
 Lemma reaches_jump c j : reaches c [jchar j] (emit c [jatom j]).
 Proof. one_step. apply (steps_one _ (jchar j) [] _ true). intros rest pos. destruct j; reflexivity. Qed.
@@ -310,7 +319,7 @@ Proof. reflexivity. Qed.
 
 Lemma reaches_wild1 c : reaches c [63] (wild1 c).
 Proof.
-  intros dep sbs bar Hbar. unfold wild1.
+  intros dep sbs bar _ Hbar. unfold wild1.
   destruct (last_atom (c_res c)) as [a|] eqn:E.
   2: { exists bar. split; [apply bar_ok_emit; exact Hbar|]. apply (steps_one _ 63 [] _ true). intros rest pos.
        cbn [app]. rewrite pstep_wild, E. reflexivity. }
@@ -319,10 +328,13 @@ Proof.
        cbn [app]; rewrite pstep_wild, E; reflexivity).
   (* the last atom is a skip *)
   assert (Eb : Nat.ltb bar (length (c_res c)) = negb (c_closed c)).
-  { unfold bar_ok in Hbar. destruct (c_closed c); cbn [negb]; [subst bar; apply Nat.ltb_irrefl|apply Nat.ltb_lt; exact Hbar]. }
+  { unfold bar_ok in Hbar. destruct (c_closed c); cbn [negb]; [subst bar; apply Nat.ltb_irrefl|apply Nat.ltb_lt].
+    destruct Hbar as [Hle Hne]. destruct (Nat.eq_dec bar (length (c_res c))) as [Eq|Ne]; [exfalso; exact (Hne Eq k E)|lia]. }
   destruct (negb (c_closed c) && negb (k =? 0) && (k <? 255)) eqn:Ec.
   - exists bar. split.
-    + unfold bar_ok. cbn [c_closed c_res]. rewrite set_last_length. unfold bar_ok in Hbar. destruct (c_closed c); [discriminate|exact Hbar].
+    + unfold bar_ok. cbn [c_closed c_res]. rewrite set_last_length.
+      assert (Hlt : Nat.ltb bar (length (c_res c)) = true) by (rewrite Eb; destruct (c_closed c); [discriminate|reflexivity]).
+      apply Nat.ltb_lt in Hlt. split; [lia|intros Eq; lia].
     + apply (steps_one _ 63 [] _ false). intros rest pos. cbn [app]. rewrite pstep_wild, E, Eb, Ec. reflexivity.
   - exists bar. split; [apply bar_ok_emit; exact Hbar|]. apply (steps_one _ 63 [] _ true). intros rest pos.
     cbn [app]. rewrite pstep_wild, E, Eb, Ec. reflexivity.
@@ -369,8 +381,8 @@ Qed.
 (* parse (show a) = Ok (compile a) on the fragment without braces and alternatives *)
 Theorem parse_show_compile_flat a : flat a = true -> wf a -> parse (show a) = Ok (inr (compile a)).
 Proof.
-  intros Hf Hw. destruct (reaches_flat_show a cinit Hf Hw 0 [] 0%nat) as [bar' [_ S]].
-  - unfold bar_ok. cbn [cinit c_closed c_res length]. lia.
+  intros Hf Hw. destruct (reaches_flat_show a cinit Hf Hw 0 [] 0%nat I) as [bar' [_ S]].
+  - apply bar_ok_lt; [reflexivity|cbn [cinit c_res length]; lia].
   - apply (steps_parse _ _ S); reflexivity.
 Qed.
 
@@ -462,32 +474,35 @@ Proof.
 Qed.
 
 (* ---------------------------------------------------------------- the parser's steps at { } ( | ) *)
-Lemma pstep_open st R j rest : p_res st = R ++ [jatom j] ->
+Lemma pstep_open st R j rest : p_res st = R ++ [jatom j] -> (p_barrier st < length (p_res st))%nat ->
   pstep st 123 rest =
   inr ({| p_res := R ++ [Push (jpush j); jatom j]; p_save := p_save st; p_depth := p_depth st + 1; p_subs := p_subs st;
-          p_pos := p_pos st; p_barrier := p_barrier st |}, rest, true).
+          p_pos := p_pos st; p_barrier := length (R ++ [Push (jpush j); jatom j]) |}, rest, true).
 Proof.
-  intros H.
+  intros H Hb.
   change (pstep st 123 rest) with
-    (match last_atom (p_res st) with
-     | Some Jump1 => @inr paterr _ ({| p_res := set_last (p_res st) (Push 1) ++ [Jump1]; p_save := p_save st; p_depth := p_depth st + 1; p_subs := p_subs st; p_pos := p_pos st; p_barrier := p_barrier st |}, rest, true)
-     | Some Jump4 => inr ({| p_res := set_last (p_res st) (Push 4) ++ [Jump4]; p_save := p_save st; p_depth := p_depth st + 1; p_subs := p_subs st; p_pos := p_pos st; p_barrier := p_barrier st |}, rest, true)
-     | Some Ptr => inr ({| p_res := set_last (p_res st) (Push 0) ++ [Ptr]; p_save := p_save st; p_depth := p_depth st + 1; p_subs := p_subs st; p_pos := p_pos st; p_barrier := p_barrier st |}, rest, true)
+    (if negb (Nat.ltb (p_barrier st) (length (p_res st))) then inl StackInvalid else
+     match last_atom (p_res st) with
+     | Some Jump1 => let r := set_last (p_res st) (Push 1) ++ [Jump1] in @inr paterr _ ({| p_res := r; p_save := p_save st; p_depth := p_depth st + 1; p_subs := p_subs st; p_pos := p_pos st; p_barrier := length r |}, rest, true)
+     | Some Jump4 => let r := set_last (p_res st) (Push 4) ++ [Jump4] in inr ({| p_res := r; p_save := p_save st; p_depth := p_depth st + 1; p_subs := p_subs st; p_pos := p_pos st; p_barrier := length r |}, rest, true)
+     | Some Ptr => let r := set_last (p_res st) (Push 0) ++ [Ptr] in inr ({| p_res := r; p_save := p_save st; p_depth := p_depth st + 1; p_subs := p_subs st; p_pos := p_pos st; p_barrier := length r |}, rest, true)
      | _ => inl StackInvalid
      end).
+  apply Nat.ltb_lt in Hb. rewrite Hb. cbn [negb]. cbv zeta.
   rewrite H, last_atom_snoc. destruct j; cbn [jatom jpush]; rewrite set_last_snoc, <- app_assoc; reflexivity.
 Qed.
 
-Lemma pstep_close st rest : p_depth st <> 0 ->
+Definition floor_of (subs : list sub) : N := match subs with sb :: _ => sb_depth sb | [] => 0 end.
+Lemma pstep_close st rest : floor_of (p_subs st) < p_depth st ->
   pstep st 125 rest =
   inr ({| p_res := p_res st ++ [Pop]; p_save := p_save st; p_depth := p_depth st - 1; p_subs := p_subs st;
           p_pos := p_pos st; p_barrier := p_barrier st |}, rest, true).
 Proof.
   intros H.
   change (pstep st 125 rest) with
-    (if p_depth st =? 0 then inl StackError
+    (if p_depth st <=? floor_of (p_subs st) then inl StackError
      else @inr paterr _ ({| p_res := p_res st ++ [Pop]; p_save := p_save st; p_depth := p_depth st - 1; p_subs := p_subs st; p_pos := p_pos st; p_barrier := p_barrier st |}, rest, true)).
-  destruct (p_depth st =? 0) eqn:E; [lia|reflexivity].
+  destruct (p_depth st <=? floor_of (p_subs st)) eqn:E; [lia|reflexivity].
 Qed.
 
 Lemma pstep_lparen st rest :
@@ -612,8 +627,8 @@ Section Alt.
     bar_ok (pre (ctx (prev ++ [cur])) fresh) bar /\ steps (G prev cur bar) [124] (G (prev ++ [cur]) fresh bar).
   Proof.
     intros Hb Hl. split.
-    - apply bar_le in Hb. unfold bar_ok, pre, ctx in *. cbn [c_closed c_res fresh] in *.
-      rewrite map_app. cbn [map]. rewrite partial_snoc. revert Hb. lens. intros Hb. destruct (c_closed cur); lia.
+    - apply bar_le in Hb. apply bar_ok_lt; [reflexivity|]. unfold pre, ctx in *. cbn [c_closed c_res fresh] in *.
+      rewrite map_app. cbn [map]. rewrite partial_snoc. revert Hb. lens. intros Hb. lia.
     - apply (steps_one _ 124 [] _ true). intros rest pos. cbn [app].
       rewrite (pstep_pipe _ (mksub prev) sbs) by reflexivity.  (* the alternative is balanced: depth = depth at '(' *)
       unfold G, mkst, set_pos, pre, mksub. cbn [p_res p_save p_depth p_subs p_barrier p_pos c_res c_save c_closed sb_case sb_brks sb_save sb_save_next sb_depth fresh].
@@ -678,7 +693,7 @@ Section Alt.
       destruct (alt_pipe prev cur bar Hb Hl) as [Hb1 S1].
       assert (Gd : guard (ctx (prev ++ [cur])) fresh).
       { intros _ _ k. unfold ctx. rewrite app_assoc, last_atom_snoc. discriminate. }
-      destruct (Hs1 (ctx (prev ++ [cur])) fresh Gd Hw1 dep (mksub (prev ++ [cur]) :: sbs) bar Hb1) as [bar2 [Hb2 S2]].
+      destruct (Hs1 (ctx (prev ++ [cur])) fresh Gd Hw1 dep (mksub (prev ++ [cur]) :: sbs) bar (N.le_refl dep) Hb1) as [bar2 [Hb2 S2]].
       destruct (IH (prev ++ [cur]) (compf alt) bar2 Hb2 Hs2 Hw2) as [bar3 [Hb3 S3]].
       { rewrite <- app_assoc. exact Hok. }
       exists bar3. rewrite <- app_assoc in Hb3, S3. cbn [app] in Hb3, S3. split; [exact Hb3|].
@@ -704,16 +719,18 @@ Proof.
     apply (IH Ht). { apply guard_comp_item. exact G. } exact Wt.
 Qed.
 
-Lemma steps_open c j bar dep sbs :
-  steps (mkst (emit c [jatom j]) bar dep sbs) [123] (mkst (emit c [Push (jpush j); jatom j]) bar (dep + 1) sbs).
+Lemma steps_open c j bar dep sbs : (bar <= length (c_res c))%nat ->
+  steps (mkst (emit c [jatom j]) bar dep sbs) [123] (mkst (emit c [Push (jpush j); jatom j]) (length (c_res c) + 2) (dep + 1) sbs).
 Proof.
-  apply (steps_one _ 123 [] _ true). intros rest pos. cbn [app].
-  rewrite (pstep_open _ (c_res c) j) by reflexivity. reflexivity.
+  intros Hb. apply (steps_one _ 123 [] _ true). intros rest pos. cbn [app].
+  rewrite (pstep_open _ (c_res c) j); [|reflexivity|cbn [set_pos mkst emit p_barrier p_res c_res]; rewrite app_length; cbn [length]; lia].
+  unfold set_pos, mkst, emit. cbn [p_res p_save p_depth p_subs p_pos p_barrier c_res c_save c_closed].
+  rewrite app_length. reflexivity.
 Qed.
-Lemma steps_close c bar dep sbs : steps (mkst c bar (dep + 1) sbs) [125] (mkst (emit c [Pop]) bar dep sbs).
+Lemma steps_close c bar dep sbs : floor_ok dep sbs -> steps (mkst c bar (dep + 1) sbs) [125] (mkst (emit c [Pop]) bar dep sbs).
 Proof.
-  apply (steps_one _ 125 [] _ true). intros rest pos. cbn [app].
-  rewrite pstep_close by (cbn [set_pos mkst p_depth]; lia).
+  intros Hfl. apply (steps_one _ 125 [] _ true). intros rest pos. cbn [app].
+  rewrite pstep_close by (cbn [set_pos mkst p_depth p_subs]; unfold floor_of; unfold floor_ok in Hfl; destruct sbs; lia).
   unfold set_pos, mkst, emit. cbn [p_res p_save p_depth p_subs p_pos p_barrier c_res c_save c_closed].
   replace (dep + 1 - 1) with dep by lia. reflexivity.
 Qed.
@@ -730,7 +747,7 @@ Lemma steps_lparen P c bar dep sbs : bar_ok (pre P c) bar ->
   steps (mkst (pre P c) bar dep sbs) [40] (G (P ++ c_res c) (c_save c) dep sbs [] fresh bar).
 Proof.
   intros Hb fresh. split.
-  - apply bar_le in Hb. unfold bar_ok, pre, ctx in *. cbn [c_closed c_res fresh map partial app] in *. revert Hb. lens. lia.
+  - apply bar_le in Hb. apply bar_ok_lt; [reflexivity|]. unfold pre, ctx in *. cbn [c_closed c_res fresh map partial app] in *. revert Hb. lens. lia.
   - apply (steps_one _ 40 [] _ true). intros rest pos. cbn [app]. rewrite pstep_lparen.
     unfold G, mkst, set_pos, pre, mksub, ctx. cbn [p_res p_save p_depth p_subs p_pos p_barrier c_res c_save c_closed fresh map partial brk_pos app length].
     rewrite app_nil_r, Nat.add_0_r. reflexivity.
@@ -755,16 +772,19 @@ Proof.
     change (flat_map (fun x => show_item x ++ [32]) sub) with (show_seq sub).
     set (c1 := emit c [Push (jpush j); jatom j]) in *.
     assert (G1 : guard P c1). { apply guard_nonempty. unfold c1. cbn [emit c_res]. intros E. apply app_eq_nil in E. destruct E; discriminate. }
-    intros dep sbs bar Hbar.
-    destruct (Hs P c1 G1 Hw (dep + 1) sbs bar) as [bar2 [Hb2 S2]].
-    { unfold c1. rewrite pre_emit. apply bar_ok_emit. exact Hbar. }
+    intros dep sbs bar Hfl Hbar.
+    pose proof (bar_le _ _ Hbar) as Hble.
+    destruct (Hs P c1 G1 Hw (dep + 1) sbs (length (c_res (pre P c)) + 2)%nat (floor_ok_succ _ _ Hfl)) as [bar2 [Hb2 S2]].
+    { unfold c1. rewrite pre_emit. unfold bar_ok, emit. cbn [c_closed c_res]. rewrite app_length. cbn [length].
+      split; [lia|]. intros _ k.
+      change (c_res (pre P c) ++ [Push (jpush j); jatom j]) with (c_res (pre P c) ++ [Push (jpush j)] ++ [jatom j]).
+      rewrite app_assoc, last_atom_snoc. destruct j; discriminate. }
     exists bar2. split; [rewrite pre_emit; apply bar_ok_emit; exact Hb2|].
     change (jchar j :: 32 :: 123 :: 32 :: show_seq sub ++ [125]) with ([jchar j] ++ [32] ++ [123] ++ [32] ++ show_seq sub ++ [125]).
-    destruct (reaches_jump (pre P c) j dep sbs bar Hbar) as [bar1 [_ S1]].
     eapply steps_app; [apply (steps_one _ (jchar j) [] (mkst (emit (pre P c) [jatom j]) bar dep sbs) true); intros rest pos; destruct j; reflexivity|].
-    eapply steps_app; [apply steps_space|]. eapply steps_app; [apply steps_open|]. eapply steps_app; [apply steps_space|].
+    eapply steps_app; [apply steps_space|]. eapply steps_app; [apply steps_open; exact Hble|]. eapply steps_app; [apply steps_space|].
     unfold c1 in S2. rewrite pre_emit in S2. eapply steps_app; [exact S2|].
-    rewrite pre_emit. apply steps_close.
+    rewrite pre_emit. apply steps_close. exact Hfl.
   - (* ( a | more ) *)
     assert (Hsa : seq_ok a). { apply seq_from_items. clear - IH. induction a as [|x t IHt]; [constructor|constructor; [apply IH|exact IHt]]. }
     assert (Hsm : Forall seq_ok more).
@@ -778,10 +798,10 @@ Proof.
     change (flat_map (fun x => show_item x ++ [32]) a) with (show_seq a).
     change (flat_map (fun alt => 124 :: 32 :: flat_map (fun x => show_item x ++ [32]) alt) more) with (flat_map (fun alt => 124 :: 32 :: show_seq alt) more).
     match goal with |- reaches _ _ ?tgt => change tgt with (pre P (comp_item (IAlt a more) c)) end. rewrite Efin.
-    intros dep sbs bar Hbar.
+    intros dep sbs bar Hfl Hbar.
     destruct (steps_lparen P c bar dep sbs Hbar) as [Hb1 S1]. fold fresh in Hb1, S1. fold P0 in Hb1, S1.
     assert (Gd : guard (ctx P0 []) fresh). { intros _ _ k. unfold ctx. rewrite app_assoc, last_atom_snoc. discriminate. }
-    destruct (Hsa (ctx P0 []) fresh Gd Wa dep (mksub P0 (c_save c) dep [] :: sbs) bar Hb1) as [bar2 [Hb2 S2]].
+    destruct (Hsa (ctx P0 []) fresh Gd Wa dep (mksub P0 (c_save c) dep [] :: sbs) bar (N.le_refl dep) Hb1) as [bar2 [Hb2 S2]].
     destruct (alt_more P0 (c_save c) dep sbs more [] (compf (c_save c) a) bar2 Hb2 Hsm Wm Wok) as [bar3 [Hb3 S3]].
     exists bar3. split; [exact Hb3|].
     change (40 :: 32 :: show_seq a ++ flat_map (fun alt => 124 :: 32 :: show_seq alt) more ++ [41])
@@ -807,8 +827,8 @@ Qed.
 (* C11 theorem 2: the parser inverts the printer of the documented syntax *)
 Theorem parse_show_compile a : wf a -> parse (show a) = Ok (inr (compile a)).
 Proof.
-  intros Hw. destruct (reaches_show a cinit Hw 0 [] 0%nat) as [bar' [_ S]].
-  - unfold bar_ok. cbn [pre cinit c_closed c_res length app]. lia.
+  intros Hw. destruct (reaches_show a cinit Hw 0 [] 0%nat I) as [bar' [_ S]].
+  - apply bar_ok_lt; [reflexivity|cbn [pre cinit c_res length app]; lia].
   - apply (steps_parse _ _ S); reflexivity.
 Qed.
 
